@@ -95,5 +95,15 @@ def inScope (op : String) (o₁ o₂ w₁ w₂ : Value) : Option Bool :=
   | "mul" => some (common o₁ o₂ w₁ w₂ && sideMul w₁.unmark w₂.unmark o₁.unmark o₂.unmark)
   | _ => none
 
+/-- copy of `SetCountOK` (Lemmas/d01Len.lean) -/
+def setCountOK (w o : Value) : Bool :=
+  match w.v, o.v with
+  | .sset _ ws, .sset _ vs => !(Payload.whollyKnownL ws) || ws.length == 1 || ws.length == vs.length
+  | _, _ => true
+
+/-- every hypothesis of `C01.sound_length_partial` -/
+def inScopeLength (o w : Value) : Bool :=
+  o.whollyKnown && o.wfc && w.wfc && (!w.ty.isDyn || !w.isKnown) && setCountOK w.unmark o.unmark && CoversX w o
+
 end D01
 end CtyModel
